@@ -85,22 +85,22 @@ CHECKS = {
         technique=SIM + "; differential reset world vs. brand-new world in lock-step",
         ref="DESIGN.md section 5, C15"),
     "C16": dict(
-        text="Generated interleavings of registrations of generated type shapes (relation embedded first / later / absent, structs, arrays, zero-sized, non-struct) with entity operations biased to the newest and highest IDs, re-registration, registration under lock, filling the registry to the limit plus one, and the resource registry likewise; after every operation the registry observables are checked for density, stability and consistency and every tracked entity is read through every registered ID. Both mask-width builds in both tiers.",
+        text="Generated interleavings of registrations of generated type shapes (relation embedded first / later / absent, structs, arrays, zero-sized, non-struct) with entity operations biased to the newest and highest IDs, re-registration, registration under lock, filling the registry to the limit plus one, and the resource registry likewise; after every operation the registry observables are checked for density, stability and consistency and every tracked entity is read through every registered ID. Both mask-width builds in both tiers. World.Reset is part of the histories (registrations survive it); the resource registry is modelled too (ResourceIDs/ResourceType after every op) and known component and resource types are looked up again and must keep their IDs; relation tables are retired and reused across registrations.",
         note="Type shapes come from a finite family built with reflect; a named (non-embedded) first field of type ecs.Relation is not generated (ambiguous in the docs, DESIGN 4.11).",
         technique="stateful property-based testing (rapid) against a registry/entity model; read-back through every registered ID",
         ref="DESIGN.md section 5, C16"),
     "C17": dict(
-        text="Generated pre-histories leave arbitrary free-list shapes; the dump (optionally passed through encoding/json) is loaded into a fresh or used-and-reset world of another capacity increment; a generated continuation of creations and removals is applied to source and loaded world; Alive answers for every handle, the handles issued during the continuation and the dumps must be identical; loading into a non-empty world must panic without effect; Entity JSON round trips are checked for arbitrary (id, generation).",
+        text="Generated pre-histories leave arbitrary free-list shapes; the dump (optionally passed through encoding/json) is loaded into a fresh or used-and-reset world of another capacity increment; a generated continuation of creations and removals is applied to source and loaded world; Alive answers for every handle, the handles issued during the continuation and the dumps must be identical; loading into a non-empty world must panic without effect; Entity JSON round trips are checked for arbitrary (id, generation). The dump is treated as a value: it is compared with a deep copy after the loaded world went on and loaded a second time into another fresh world.",
         note="Continuations contain creations and single removals only, as the statement says; handles issued before the source world's last reset are not asked about (DESIGN 4.4).",
         technique="stateful property-based testing (rapid): round trip (dump -> JSON -> load) + differential continuation on source and loaded world",
         ref="DESIGN.md section 5, C17"),
     "C18": dict(
-        text="Generated Go code instantiates MapN/FilterN/QueryN for every arity 0-12 in natural order, reversed order and with the relation type at a varying position (37 instantiations), plus Map and Exchange; generated histories drive one world through the generic calls and a lock-step world through the ID-based calls documented as equivalent, and both are compared completely after every operation. MapN.Get and QueryN.Get must be pointer-identical, position by position, to World.Get of the declared type. Generated builder scripts (Optional/With/Without/Exclusive/WithRelation before and between queries, Register/Unregister, call-time targets, two open queries) are compared with the equivalent core filter built from the builder state at query-build time.",
+        text="Generated Go code instantiates MapN/FilterN/QueryN for every arity 0-12 in natural order, reversed order and with the relation type at a varying position (37 instantiations), plus Map and Exchange; generated histories drive one world through the generic calls and a lock-step world through the ID-based calls documented as equivalent, and both are compared completely after every operation. MapN.Get and QueryN.Get must be pointer-identical, position by position, to World.Get of the declared type. Generated builder scripts (Optional/With/Without/Exclusive/WithRelation before and between queries, Register/Unregister, call-time targets, two open queries) are compared with the equivalent core filter built from the builder state at query-build time. WithRelation is also re-issued with another fixed target between queries. Resource part (TestC18Resource): generic.Resource mappers and GetResource against the ID-based answers over generated Add/Remove/replace/Reset histories.",
         note="Modifying a filter builder while a query built from it is still open is not generated (queries are exhausted before the builder is touched again, except the two-open-queries step).",
         technique="differential property-based testing (rapid): generic API vs. documented ID-based equivalent on lock-step worlds; generated adapters for all arities",
         ref="DESIGN.md section 5, C18"),
     "C19": dict(
-        text="Groups of 2-6 worlds with different universes (same type pools, different registration orders) and generated histories. Each history is run alone to get a reference trace; then all are interleaved step by step in one goroutine (after every step the hidden-state digest and observables of all other worlds must be unchanged) and run concurrently, one goroutine per world, in a race-detector build: no race report, no runtime fatal error, every trace equal to the reference.",
+        text="Groups of 2-6 worlds with different universes (same type pools, different registration orders) and generated histories. Each history is run alone to get a reference trace; then all are interleaved step by step in one goroutine (after every step the hidden-state digest and observables of all other worlds must be unchanged) and run concurrently, one goroutine per world, in a race-detector build: no race report, no runtime fatal error, every trace equal to the reference. Shared-checkpoint part (TestC19Dump): 2-4 worlds load the same EntityDump value and run their own creation/removal scripts, compared with runs on private copies, interleaved and concurrently under the race detector.",
         note="Goroutine schedules are sampled; the race detector compensates because it flags unsynchronised accesses that executed, independent of the exact interleaving. A race report or runtime fatal error cannot be shrunk: the replay file holds the group's histories and is re-run 20 times.",
         technique="property-based testing (rapid) with a differential oracle (alone vs. interleaved vs. concurrent) under the Go race detector",
         ref="DESIGN.md section 5, C19"),
